@@ -28,6 +28,7 @@ type Instrument struct {
 	Pkg        string   `json:"pkg"`         // import path
 	Files      []string `json:"files"`       // base names (empty: all non-test files)
 	RacyFields []string `json:"racy_fields"` // plain fields accessed through a scheduling point when reached via a pointer
+	MutexOnly  bool     `json:"mutex_only"`  // only sync.Mutex Lock/Unlock are rewritten (to vrt.LockQ/vrt.Unlock: no scheduling point of their own)
 }
 
 const vrtPath = "golang.org/x/telemetry/internal/vrt"
@@ -83,7 +84,7 @@ func (e *Engine) instrument(ov map[string][]byte) error {
 					continue
 				}
 			}
-			n := instrumentFile(pkg.Fset, file, pkg.TypesInfo, racy)
+			n := instrumentFile(pkg.Fset, file, pkg.TypesInfo, racy, in.MutexOnly)
 			if n == 0 {
 				continue
 			}
@@ -111,6 +112,9 @@ func isAtomicNamed(t types.Type) bool {
 }
 
 func isMutex(t types.Type) bool {
+	if p, ok := t.(*types.Pointer); ok {
+		t = p.Elem()
+	}
 	n, ok := t.(*types.Named)
 	if !ok || n.Obj().Pkg() == nil {
 		return false
@@ -124,7 +128,7 @@ func vrtCall(fn string, arg ast.Expr) *ast.CallExpr {
 
 func addrOf(x ast.Expr) ast.Expr { return &ast.UnaryExpr{Op: token.AND, X: x} }
 
-func instrumentFile(fset *token.FileSet, file *ast.File, info *types.Info, racy map[string]bool) int {
+func instrumentFile(fset *token.FileSet, file *ast.File, info *types.Info, racy map[string]bool, mutexOnly bool) int {
 	n := 0
 	astutil.Apply(file, nil, func(c *astutil.Cursor) bool {
 		switch x := c.Node().(type) {
@@ -136,7 +140,7 @@ func instrumentFile(fset *token.FileSet, file *ast.File, info *types.Info, racy 
 			// package-level sync/atomic function
 			if id, ok := sel.X.(*ast.Ident); ok {
 				if pn, ok := info.Uses[id].(*types.PkgName); ok {
-					if pn.Imported().Path() == "sync/atomic" && len(x.Args) > 0 {
+					if pn.Imported().Path() == "sync/atomic" && len(x.Args) > 0 && !mutexOnly {
 						x.Args[0] = vrtCall("Y", x.Args[0])
 						n++
 					}
@@ -150,6 +154,9 @@ func instrumentFile(fset *token.FileSet, file *ast.File, info *types.Info, racy 
 			if s, ok := info.Selections[sel]; ok && s.Kind() == types.MethodVal {
 				// method of a sync/atomic type
 				if isAtomicNamed(recvT) {
+					if mutexOnly {
+						return true
+					}
 					if _, isPtr := recvT.(*types.Pointer); isPtr {
 						sel.X = vrtCall("Y", sel.X)
 					} else {
@@ -160,14 +167,22 @@ func instrumentFile(fset *token.FileSet, file *ast.File, info *types.Info, racy 
 				}
 				// sync.Mutex Lock / Unlock
 				if isMutex(recvT) && (sel.Sel.Name == "Lock" || sel.Sel.Name == "Unlock") && len(x.Args) == 0 {
-					x.Fun = &ast.SelectorExpr{X: ast.NewIdent("vrt"), Sel: ast.NewIdent(sel.Sel.Name)}
-					x.Args = []ast.Expr{addrOf(sel.X)}
+					name := sel.Sel.Name
+					if mutexOnly && name == "Lock" {
+						name = "LockQ"
+					}
+					x.Fun = &ast.SelectorExpr{X: ast.NewIdent("vrt"), Sel: ast.NewIdent(name)}
+					if _, isPtr := recvT.(*types.Pointer); isPtr {
+						x.Args = []ast.Expr{sel.X}
+					} else {
+						x.Args = []ast.Expr{addrOf(sel.X)}
+					}
 					n++
 					return true
 				}
 			}
 		case *ast.SelectorExpr:
-			if !racy[x.Sel.Name] {
+			if mutexOnly || !racy[x.Sel.Name] {
 				return true
 			}
 			if s, ok := info.Selections[x]; !ok || s.Kind() != types.FieldVal {
